@@ -49,8 +49,10 @@ def no_wrap_guard(conds, ptr, n):
     """an abort check that start+n-1 did not wrap below start (possibly `n == 0 ||` in front)"""
     end = lin("-", lin("+", ptr, n), C(1))
     want = cmp_("<=", ptr, end)
+    # the same fact stated on the other side of the inequality: n-1 <= UINTPTR_MAX - start
+    want2 = cmp_("<=", lin("-", n, C(1)), lin("-", C(MAXU64), ptr))
     for c in conds:
-        if c == want:
+        if c == want or c == want2:
             return True
         if c[0] == "or" and want in (c[1], c[2]) and cmp_("==", n, C(0)) in (c[1], c[2]):
             return True
@@ -136,6 +138,14 @@ def analyse_path(rep, f, p, inst, seen):
             d = q.diff_const(e, n)
             if d is not None and 0 <= d <= allow_slack:
                 good = e
+        if good is None:
+            # equal under this path's conditions: the path fixed the size to a constant (`if (size == 0) ...`)
+            n_here = q.under_equalities(conds, n)
+            if n_here != n:
+                for e in ext:
+                    d = q.diff_const(q.under_equalities(conds, e), n_here)
+                    if d is not None and 0 <= d <= allow_slack:
+                        good = e
         if good is None:
             # find the function that established the (wrong) extent
             est = establishing_event(p, i, ptr)
